@@ -100,6 +100,17 @@ def run(res, proof):
                         o3 = step(hl, ho, 'mk.macro\t0\t-\t%s' % hs(list(sub[1:]) + [others[0]]))
                         if o3.startswith('ret h8'):
                             res.violation('macro:different-members-identified', {'history': list(hl)}, o3, 'another object or a refusal')
+                    # ... also under the macrostate's own name: a strict subset or a superset of its members, requested with that
+                    # name given explicitly, is another set under a taken name - refused, never answered with the live object
+                    alts = [q for r in range(1, k) for q in itertools.combinations(sub, r)]
+                    if others:
+                        alts.append(tuple(sub) + (others[0],))
+                    for q in (alts if len(alts) <= 6 else rng.sample(alts, 6)):
+                        for qq in (q, tuple(reversed(q))):
+                            o5 = step(hl, ho, 'mk.macro\t0\t%s\t%s' % (want_name, hs(qq)))
+                            if o5.startswith('ret h8'):
+                                res.violation('macro:other-member-set-under-its-name-identified', {'history': list(hl)}, o5,
+                                              'SingletonError: %d other members under the name of a live macrostate of %d' % (len(q), k))
                     del m, members, smallest
                     lines.extend(hl); impl.extend(ho)
     # ---- an unnamed macrostate is named after (represented by) its canonically smallest member, whatever else is alive:
@@ -127,6 +138,7 @@ def run(res, proof):
                 del members, smallest
                 lines.extend(hl); impl.extend(ho)
     caller_owned_arguments(res, iw, start, rng)
+    names_reused(res, iw, rng)
     # ---- reactions: all multisets of reactants / products up to size 3 (sampled), all types, all permutations
     multis = [list(c) for n in (1, 2, 3) for c in itertools.combinations_with_replacement(CX[:4], n)]
     combos = [(r, p, t) for r in multis for p in multis for t in RTYPES]
@@ -300,6 +312,61 @@ def caller_owned_arguments(res, iw, start, rng):
         except Exception as e:
             res.violation('reaction:caller-owned-list:raises:' + type(e).__name__, desc, type(e).__name__, 'objects'); e = None
         del cx, mem, canon, r, p
+
+
+def names_reused(res, iw, rng):
+    """names are unique among LIVE objects only: after a generation of complexes (and everything built from them) has been
+    dropped, a second generation may carry the same names with other contents, so that the canonical order of the same NAMES
+    is another one - a reaction / macrostate requested with the same argument order of names must again list its members in
+    canonical order, and every permutation must denote it"""
+    import gc, itertools as it
+    from dsdobjects.base_classes import DomainS, ComplexS, MacrostateS, ReactionS
+    names = ['X', 'Y', 'Z']
+    for trial in range(10):
+        iw.reset()
+        doms = [DomainS(n, 5) for n in 'abc']
+        pool = [[doms[0]], [doms[1]], [doms[2]], [doms[0], doms[1]], [doms[1], doms[0]], [doms[2], doms[0]]]
+        gen1 = rng.sample(pool, 3)
+        gen2 = list(gen1)
+        while gen2 == gen1:
+            rng.shuffle(gen2)
+        rord = rng.choice(list(it.permutations(range(3), 2)))           # reactants by NAME position, e.g. (Y, X)
+        pord = [i for i in range(3) if i not in rord] or [0]
+        rtype = rng.choice(['bind21', 'condensed', 'open'])
+        for g, gen in enumerate((gen1, gen2)):
+            desc = {'history': ['generation %d: %s' % (g + 1, '; '.join('%s = %s' % (n, ' '.join(d.name for d in q)) for n, q in zip(names, gen))),
+                                'ReactionS([%s], [%s], %s); MacrostateS([%s])' % (', '.join(names[i] for i in rord), ', '.join(names[i] for i in pord),
+                                                                                  rtype, ', '.join(names[i] for i in rord))] +
+                    (['after generation 1 (same names, contents %s) was dropped' % '; '.join(' '.join(d.name for d in q) for q in gen1)] if g else [])}
+            res.evaluations += 1
+            res.count('names_reused_generations')
+            try:
+                cx = [ComplexS(list(q), ['.'] * len(q), name=n) for n, q in zip(names, gen)]
+                ra, pa = [cx[i] for i in rord], [cx[i] for i in pord]
+                x = ReactionS(list(ra), list(pa), rtype)
+                rs, ps = sorted(ra, key=lambda c: c.canonical_form), sorted(pa, key=lambda c: c.canonical_form)
+                if [id(c) for c in x.reactants] != [id(c) for c in rs] or [id(c) for c in x.products] != [id(c) for c in ps] \
+                        or x.name != '[%s] %s -> %s' % (rtype, ' + '.join(c.name for c in rs), ' + '.join(c.name for c in ps)):
+                    res.violation('reaction:not-in-canonical-order:names-reused', desc, '%s (%s -> %s)' % (x.name, [c.name for c in x.reactants], [c.name for c in x.products]),
+                                  'reactants %s, products %s' % ([c.name for c in rs], [c.name for c in ps]))
+                for rp in it.permutations(ra):
+                    if ReactionS(list(rp), list(pa), rtype) is not x:
+                        res.violation('reaction:permutation-not-identified:names-reused', desc, 'another object for reactants %s' % [c.name for c in rp], 'the same object')
+                        break
+                rp = None
+                m = MacrostateS(list(ra))
+                ms = sorted(ra, key=lambda c: c.canonical_form)
+                if sorted(id(c) for c in m.complexes) != sorted(id(c) for c in ms) or [id(c) for c in m.canonical_form] != [id(c) for c in ms] \
+                        or m.name != ms[0].name or m.representative is not ms[0] or len(m) != len(ms):
+                    res.violation('macro:attributes:names-reused', desc, '%s %s' % (m.name, [c.name for c in m.complexes]), '%s %s' % (ms[0].name, [c.name for c in ms]))
+                if MacrostateS(list(reversed(ra))) is not m:
+                    res.violation('macro:permutation-not-identified:names-reused', desc, 'another object', 'the same object')
+                del cx, ra, pa, x, rs, ps, m, ms
+            except Exception as e:
+                res.violation('names-reused:raises:' + type(e).__name__, desc, '%s: %s' % (type(e).__name__, str(e)[:100]), 'objects'); e = None
+            gc.collect()
+        del doms, pool, gen1, gen2
+    iw.reset()
 
 
 def replay(body, repo):
